@@ -150,7 +150,14 @@ func propC14(t *rapid.T) {
 	{
 		base := genJSONTable(t)
 		d := hx.GenDerived(t, base, 4)
-		upper := rapid.IntRange(0, 4).Draw(t, "toupperfirst") == 0
+		// now and then the frame has an earlier life that touched its data columns (observed afterwards, like every input here)
+		hist := len(base.Cols) > 0 && rapid.IntRange(0, 5).Draw(t, "history") == 0
+		if hist {
+			var h hx.History
+			d.QF, _, h = hx.GenHistory(t, d.QF, d.Input(t), true)
+			d.Route = append(d.Route, h.String())
+		}
+		upper := !hist && rapid.IntRange(0, 4).Draw(t, "toupperfirst") == 0
 		if upper {
 			// string and enum columns rebuilt by the ToUpper built-in first: whatever a column carries along for the
 			// writers must follow
@@ -164,7 +171,7 @@ func propC14(t *rapid.T) {
 			}
 			d.Route = append(d.Route, "ToUpper on every string/enum column")
 		}
-		if !upper && len(base.Cols) >= 2 && rapid.IntRange(0, 5).Draw(t, "aggregatefirst") == 0 {
+		if !upper && !hist && len(base.Cols) >= 2 && rapid.IntRange(0, 5).Draw(t, "aggregatefirst") == 0 {
 			// the frame written is an Aggregate result whose aggregate columns were given new names (As)
 			key := base.Cols[0].Name
 			var aggs []qframe.Aggregation
